@@ -37,6 +37,14 @@ Definition lex_cmp {A : Type} (f : A -> A -> comparison) : list A -> list A -> c
     | x :: r, y :: r' => thenc (f x y) (go r r')
     end.
 
+(* pointwise test of two lists of equal length (Rust: zip().all() && len == len) *)
+Fixpoint forall2b {A B} (f : A -> B -> bool) (l : list A) (l' : list B) : bool :=
+  match l, l' with
+  | [], [] => true
+  | x :: r, y :: r' => f x y && forall2b f r r'
+  | _, _ => false
+  end.
+
 (* member names: UTF-8 bytes, compared bytewise like Rust's String *)
 Definition key := list N.
 Definition cmp_key : key -> key -> comparison := lex_cmp N.compare.
